@@ -29,7 +29,7 @@ FLOORS = {"quick": {"scenarios": 5000, "entries_queued": 150000, "entries_matche
                     "request_at_close_before": 3000, "request_at_close_after": 3000, "request_close_adjacent": 5000,
                     "bursts_over_15": 2000, "zero_timeout_scenarios": 1000, "requests_during_stop": 500, "real_traffic_scenarios": 800}}
 
-DSTS = [None, ("10.0.10.2", 30490), ("10.0.10.3", 30490), ("2001:db8::a3", 30490, 0, 0)]
+DSTS = [None, ("10.0.10.2", 30490), ("10.0.10.2", 30491), ("2001:db8::a3", 30490, 0, 0)]  # two peers on one host
 
 
 def wire_dst(d):
